@@ -96,6 +96,19 @@ def make_tle(init):
     return l1 + tle_checksum(l1) + "\n" + l2 + tle_checksum(l2)
 
 
+def make_mans(init):
+    """Maneuvers of the initial orbit, rebuilt from the case data (dates relative to the epoch)."""
+    from beyond.orbits.man import ContinuousMan, ImpulsiveMan
+
+    out = []
+    for m in init.get("mans", []):
+        if m["type"] == "imp":
+            out.append(ImpulsiveMan(mkdate(m["t_us"]), m["dv"]))
+        else:
+            out.append(ContinuousMan(mkdate(m["t_us"]), timedelta(microseconds=m["dur_us"]), dv=m["dv"]))
+    return out
+
+
 def fresh_objects(case):
     """(object, propagator-factory) rebuilt from the case data only."""
     from beyond.orbits import Orbit
@@ -112,7 +125,10 @@ def fresh_objects(case):
 
         HillFrame(init.get("orientation", "QSW"))
         prop = ClohessyWiltshire(init["sma"])
-        return Orbit(init["rel"], mkdate(0), "cartesian", "Hill", prop)
+        o = Orbit(init["rel"], mkdate(0), "cartesian", "Hill", prop)
+        if init.get("mans"):
+            o.maneuvers = make_mans(init)
+        return o
     el = init["el"]
     mu = go.MU_LIB()
     cart = tb.kep2cart(el["a"], el["e"], el["i"], el["raan"], el["argp"], el["nu"], mu)
@@ -142,13 +158,16 @@ def fresh_objects(case):
         return Ephem(pts)
     else:
         raise ValueError(kind)
-    return Orbit(cart, mkdate(0), init.get("form", "cartesian") if False else "cartesian", "EME2000", prop)
+    o = Orbit(cart, mkdate(0), "cartesian", "EME2000", prop)
+    if kind == "keplernum" and init.get("mans"):
+        o.maneuvers = make_mans(init)
+    return o
 
 
 def snapshot(obj):
     if hasattr(obj, "base") and not hasattr(obj, "_orbits"):
         return (np.array(obj.base, float).tobytes(), obj.form.name, obj.frame.name, us_of(obj.date),
-                len(obj.maneuvers), sorted(k for k in obj._data.keys() if k not in ("infos", "cov", "maneuvers", "event")))
+                tuple((type(m).__name__, us_of(m.date), tuple(np.asarray(m._dv, float).tolist())) for m in obj.maneuvers), sorted(k for k in obj._data.keys() if k not in ("infos", "cov", "maneuvers", "event")))
     return tuple((np.array(o.base, float).tobytes(), o.form.name, o.frame.name, us_of(o.date)) for o in obj._orbits)
 
 
@@ -190,7 +209,13 @@ class Machine:
         # history can take (retro-integration to a start before the epoch, then forward again): the
         # constant is C06's calibrated order-4 bound
         L = 2 * 30 * h + 45 * 5 * h
-        return 2.5 * el["a"] * (wp * h) ** 8 + 0.05 + 2 * 1.0 * el["a"] * (wp * h) ** 4 * (wp * L)
+        tol = 2.5 * el["a"] * (wp * h) ** 8 + 0.05 + 2 * 1.0 * el["a"] * (wp * h) ** 4 * (wp * L)
+        # the output is re-sampled by Lagrange interpolation through the integration grid: across an
+        # impulse (a kink) the interpolant is off by a fraction of |dv| * h, window dependent
+        # and an impulse takes effect at the end of the integration step containing its date (C17): two
+        # integration grids of different phase apply it up to one step apart -> |dv| * h in position
+        tol += 3 * sum(float(np.linalg.norm(m["dv"])) for m in self.case["init"].get("mans", [])) * h
+        return tol
 
     def same_state(self, got, t_us, what):
         ref = self.fresh(t_us)
@@ -355,15 +380,22 @@ class Machine:
         # A sample that coincides with a crossing may itself carry an event (the bisection returns the
         # very sample object): samples are therefore matched by date, in order; what is left over must
         # be events.
-        samples, events, j = [], [], 0
-        for s_ in got:
-            if j < len(want) and abs(us_of(s_.date) - want[j]) <= 1:
-                samples.append(s_)
-                j += 1
-            elif s_.event is not None:
-                events.append(s_)
-            else:
-                samples.append(s_)  # an unexpected plain sample: reported by check_dates below
+        # first the plain samples, then event-carrying states may stand in for dates still unmatched
+        # (an event located within 1 us of a sample date must not be taken for that sample)
+        plain = [s_ for s_ in got if s_.event is None]
+        plain_us = [us_of(s_.date) for s_ in plain]
+        samples, used = [], set()
+        for w in want:
+            hit = next((k for k, t_ in enumerate(plain_us) if k not in used and abs(t_ - w) <= 1), None)
+            if hit is not None:
+                used.add(hit)
+                samples.append(plain[hit])
+                continue
+            ev = next((s_ for s_ in got if s_.event is not None and abs(us_of(s_.date) - w) <= 1), None)
+            if ev is not None:
+                samples.append(ev)
+        samples += [s_ for k, s_ in enumerate(plain) if k not in used]  # unexpected plain samples
+        samples.sort(key=lambda s_: us_of(s_.date))
         self.check_dates(samples, want, "iter(listeners=...) samples")
         ts = [us_of(s.date) for s in got]
         if any(b < a - 1 for a, b in zip(ts, ts[1:])):
@@ -375,7 +407,7 @@ class Machine:
         got_ev = [(us_of(s.date), str(s.event)) for s in got if s.event is not None]
         if len(ref_ev) != len(got_ev) or any(abs(a[0] - b[0]) > 2 or a[1] != b[1] for a, b in zip(ref_ev, got_ev)):
             raise Violation("listener-reuse", f"events with re-used listener objects {got_ev[:6]} differ from a fresh run {ref_ev[:6]}")
-        return ["iter_listeners", f"events:{min(len(events), 3)}"]
+        return ["iter_listeners", f"events:{min(len(got_ev), 3)}"]
 
     def op_rebind(self, op):
         if self.kind == "ephem":
@@ -518,6 +550,31 @@ def history(draw, kind):
             init["h"] = h
             init["npts"] = draw(st.integers(12, 40))
     h_us = h * US
+    # (maneuvers only on the analytical CW propagator, where the contract is exact; for the numerical
+    # propagator an impulse takes effect "no later than one integration step after its date" (C17), so
+    # two integration grids of different phase legitimately differ by |dv|*h, growing along-track)
+    if kind == "cw" and draw(st.integers(0, 2)) > 0:
+        # maneuvers carried by the initial orbit: a burn "now" (exactly at the epoch), on / off the
+        # integration grid, before the epoch; chronologically ordered
+        mans = []
+        for _ in range(draw(st.integers(1, 2))):
+            when = draw(st.sampled_from(["epoch", "grid", "any", "any"]))
+            if kind == "keplernum" and when == "epoch":
+                when = "grid"
+            t = {"epoch": 0, "grid": draw(st.integers(1, 25)) * h_us, "any": draw(go.uniform_int(1, 25 * h_us))}[when]
+            dv = [round(draw(go.uniform(-0.5, 0.5)), 4) for _ in range(3)]
+            if kind == "cw" and draw(st.integers(0, 2)) == 0:
+                mans.append(dict(type="cont", t_us=t, dur_us=draw(st.integers(1, 10)) * h_us // 2, dv=dv))
+            else:
+                mans.append(dict(type="imp", t_us=t, dv=dv))
+        mans.sort(key=lambda m: m["t_us"])
+        # no overlap between a burn and what follows it
+        keep, end = [], -1
+        for m in mans:
+            if m["t_us"] > end or (m["t_us"] == 0 and end < 0):
+                keep.append(m)
+                end = m["t_us"] + m.get("dur_us", 0)
+        init["mans"] = keep
     span = (init["npts"] - 1) * h_us if kind == "ephem" else 30 * h_us
     nops = draw(st.integers(2, 6))
     ops = [draw(op_strategy(kind, h_us, span)) for _ in range(nops)]
